@@ -1,12 +1,12 @@
 (* C08 - shifted QR helpers: orthogonal Q, exact similarity, structure preserved.
    Exact-arithmetic theorems over an ARBITRARY real closed field F about the hand-written
    kernel models (model/Givens.v, model/HessQR.v), which are tied to the C++ bit for bit
-   (C-bit) in their binary64 instance.  TridiagQR / DoubleShiftQR: models tied bit for bit,
-   identities evaluated on the implementation; their global theorems are listed in DESIGN.md
-   as not yet proved. *)
+   (C-bit) in their binary64 instance.  TridiagQR: model tied bit for bit, matrix_QtHQ() = Q'TQ proved for
+   every n (proofs/TridiagQRPf.v).  DoubleShiftQR: model tied bit for bit, reflector-level theorems,
+   identities evaluated on the implementation; its global theorem is listed in DESIGN.md as not proved. *)
 From SV Require Import Ops LinAlg Givens HessQR TridiagQR DoubleShift.
 From mathcomp Require Import all_ssreflect all_algebra.
-From SV Require Import OpsF GivensPf HessQRPf.
+From SV Require Import OpsF GivensPf HessQRPf TridiagQRPf.
 Set Implicit Arguments. Unset Strict Implicit. Unset Printing Implicit Defensive.
 Import GRing.Theory Num.Theory.
 Local Open Scope ring_scope.
@@ -91,6 +91,29 @@ Theorem C08_tridiag_QtHQ_core : forall (F : rcfType) (c s x y z u1 u2 : F),
   x * (c * u1 + s * u2) ^+ 2 + 2%:R * y * (c * u1 + s * u2) * (- s * u1 + c * u2) + z * (- s * u1 + c * u2) ^+ 2.
 Proof. move=> F c s x y z u1 u2; exact: qthq_core_similarity. Qed.
 Print Assumptions C08_tridiag_QtHQ_core.
+
+(* TridiagQR (the factorization behind every implicit restart of the SYMMETRIC solvers): matrix_QtHQ() = Q' T Q for every n >= 1, every
+   diagonal / sub-diagonal and every shift, under the same contract of the rotation kernel as above.  With T the (deflated) symmetric
+   tridiagonal matrix that compute() factorized and (c_i, s_i) the rotations it stored, the diagonal D and the sub-diagonal L written by the
+   in-place loop of matrix_QtHQ() are the diagonal and the sub-diagonal of
+        M = G_{n-2}' ... G_0' T G_0 ... G_{n-2},     G_i = [c_i s_i; -s_i c_i] in the plane (i, i+1)      (congs = that product, entrywise),
+   and M is symmetric and zero outside its three diagonals: (D, L) IS Q' T Q.  The proof follows the bulge: M_i = G_{i-1}'...T...G_{i-1} is
+   tridiagonal plus one entry at (i+1, i-1), M_i(i, i-1) = -s_{i-1} p_i and M_i(i, i) = shift + c_{i-1} p_i with p_i the pivot of the QR
+   factorization, and the next rotation annihilates the bulge because it was computed from (p_i, T(i+1, i)).  (matrix_QtHQ finally zeroes
+   sub-diagonal entries below eps (|D_i| + |D_i+1|): a deflation, not part of the similarity.) *)
+Theorem C08_tridiag_QtHQ_is_similar : forall (F : rcfType) (cut eps : F) (n : nat) (diag subd : seq F) (sh : F),
+  (forall x y : F, let '(r, c, s) := compute_rotation (OpsF F) cut x y in
+     [/\ c * x - s * y = r, s * x + c * y = 0 & c ^+ 2 + s ^+ 2 = 1]) ->
+  (0 < n)%N -> size diag = n -> size subd = (n - 1)%N ->
+  let q := tqr_compute (OpsF F) cut eps n diag subd sh in
+  let M := congs 0 (rots (OpsF F) q) (Tfun (nth 0 (T_diag (OpsF F) q)) (nth 0 (T_subd (OpsF F) q))) in
+  let '(D, L) := qthq_loop (OpsF F) n q (n - 1) 0 (T_diag (OpsF F) q, T_subd (OpsF F) q) in
+  [/\ forall j, (j < n)%N -> nth 0 D j = M j j,
+      forall j, (j.+1 < n)%N -> nth 0 L j = M j.+1 j,
+      forall r k, M r k = M k r &
+      forall r k, (r < n)%N -> (k.+1 < r)%N -> M r k = 0].
+Proof. move=> F cut eps n diag subd sh; exact: tqr_QtHQ_similar. Qed.
+Print Assumptions C08_tridiag_QtHQ_is_similar.
 
 (* DoubleShiftQR: apply_PX / apply_XP act through hh3 (hh2) on triples (pairs) of entries; for a unit vector u the map is an
    isometry and an involution, i.e. every reflector P = I - 2 u u' is orthogonal and symmetric *)
